@@ -15,8 +15,11 @@ SYMBOLIZER = '/usr/bin/llvm-symbolizer-14'
 PROPS = {
     'C02': dict(engine='chan', level='fault_enumeration', variants=['asan'],
                 thorough_variants=['asan', 'dbg']),
+    # The un-sanitized build matters for C03: a stream whose acceptance involves
+    # an out-of-bounds read inside the decoder dies under ASan (C02's business)
+    # before a geometry is returned; without ASan it is accepted and judged here.
     'C03': dict(engine='chan', level='fault_enumeration', variants=['asan'],
-                thorough_variants=['asan']),
+                thorough_variants=['asan', 'plain']),
     'C18': dict(engine='chan', level='fault_enumeration', variants=['asan'],
                 thorough_variants=['asan']),
     'C17': dict(engine='prim', level='exploration', variants=['asan'],
@@ -333,7 +336,7 @@ def plan_complexity(plan):
 
 
 def process_candidates(prop, engine, sim, cands, outdir, seed, tier, max_new=4,
-                       variant=None):
+                       variant=None, tolerate_unreproducible=False):
     """Known-finding matching, gating, minimisation, replay. Returns
     (violations, known_hits, messages)."""
     known = load_known()
@@ -376,6 +379,14 @@ def process_candidates(prop, engine, sim, cands, outdir, seed, tier, max_new=4,
             violations.append(dict(sig=sig, cls=cls, replay=None,
                                    note='symptom of the reported data race; does not '
                                         'replay identically'))
+            continue
+        if tolerate_unreproducible and not (ok1 and ok2 and hash_ok):
+            # Un-sanitized build while the sanitized build reports memory errors
+            # for the same tree: what an out-of-bounds read returns there depends
+            # on the heap's history, so the symptom need not replay. Noted only.
+            violations.append(dict(sig=sig, cls=cls, replay=None, unreproducible=True,
+                                   note='seen in the batch of the un-sanitized build, '
+                                        'not reproducible in a fresh process'))
             continue
         if not (ok1 and ok2 and hash_ok):
             raise MachineryFault(
@@ -709,6 +720,10 @@ def check_chan(prop, tier, seed):
         if budget:
             args += ['--budget', str(budget * (0.7 if v == variants[0] else 0.3)
                                      if len(variants) > 1 else budget)]
+        if v == 'plain' and tier == 'quick':
+            # Second build in quick: every third run is enough (single-site
+            # enumeration stays complete in the sanitized build).
+            args += ['--sample-mod', '3']
         r = run_sim(sim, args, timeout=max(3600, budget * 2))
         if r.returncode != 0:
             raise MachineryFault('chan batch failed (%s): %s' % (v, r.stderr[-3000:]))
@@ -720,8 +735,17 @@ def check_chan(prop, tier, seed):
             raise MachineryFault('worker died outside a run: ' + json.dumps(mach[0])[:3000])
         cands = [normalise_candidate(sim, c) for c in summary['candidates']
                  if c.get('t') == 'cand' and c.get('prop') == prop]
-        viol, known = process_candidates(prop, 'chan', sim, cands,
-                                         os.path.join(outdir, 'gate-' + v), seed, tier)
+        sanitized_saw_crashes = any(
+            c.get('t') == 'cand' and c.get('prop') == 'C02'
+            for s0 in summaries if s0['variant'] != 'plain' for c in s0['candidates'])
+        viol, known = process_candidates(
+            prop, 'chan', sim, cands, os.path.join(outdir, 'gate-' + v), seed, tier,
+            variant=v, tolerate_unreproducible=(v == 'plain' and sanitized_saw_crashes))
+        unrepro = [x for x in viol if x.get('unreproducible')]
+        viol = [x for x in viol if not x.get('unreproducible')]
+        for x in unrepro:
+            log('NOTE: %s candidate %s of the plain build did not replay; the sanitized '
+                'build reports memory errors (C02) on this tree' % (prop, x['sig']))
         for x in viol:
             x['variant'] = v
             if x.get('replay'):
